@@ -1,6 +1,6 @@
 /-
   OFV.Lemmas.Sw2Ip6 — decoding the specification's byte layout of an IPv6 packet: fixed header, the walk along the
-  next-header chain (hop-by-hop options header with one 4-byte option, fragment header), and the upper-layer payload
+  next-header chain (hop-by-hop options header with ANY list of options, Pad1 included; fragment header), and the upper-layer payload
   (ICMPv6, UDP, opaque).  Used by OFV/Props/C04b.lean.
 -/
 import OFV.Model.All
@@ -62,38 +62,198 @@ theorem be32_b1 (w : UInt32) : (UInt8.ofNat (w.toNat / 65536 % 256)).toNat = w.t
 
 /-! ### extension headers -/
 
+theorem index_at (s : Slice) (n : Nat) (x : UInt8) (rest : Bytes) (h : s.bytes.drop n = x :: rest) :
+    s.index n = some x := by
+  have hx : s.bytes[n]? = some x := by
+    have := List.getElem?_drop (xs := s.bytes) (i := n) (j := 0)
+    rw [h] at this
+    simpa using this.symm
+  unfold Slice.index
+  unfold Slice.bytes at hx
+  rw [List.getElem?_take] at hx
+  by_cases hn : n < s.len
+  · simp only [hn, if_true] at hx ⊢
+    exact hx
+  · simp [hn] at hx
+
+/-- one option of a hop-by-hop options header as RFC 8200 §4.2 writes it -/
+inductive Opt where
+  /-- Pad1: the single byte 0 — no length, no data -/
+  | pad1
+  /-- any other option: type(1), length of the data(1), data -/
+  | tlv (ty : UInt8) (data : Bytes)
+
+namespace Opt
+/-- the bytes on the wire -/
+def bytes : Opt → Bytes
+  | pad1 => [0]
+  | tlv ty d => [ty, UInt8.ofNat d.length] ++ d
+/-- `p.Option(Type,Length,Data)` -/
+def val : Opt → V
+  | pad1 => .obj "p.Option" [.num 0, .num 0, .bytes []]
+  | tlv ty d => .obj "p.Option" [.num ty.toNat, .num d.length, .bytes d]
+/-- only Pad1 has type 0; the data length fits its byte -/
+def OK : Opt → Prop
+  | pad1 => True
+  | tlv ty d => ty.toNat ≠ 0 ∧ d.length < 256
+instance : (o : Opt) → Decidable o.OK
+  | pad1 => isTrue trivial
+  | tlv ty d => inferInstanceAs (Decidable (ty.toNat ≠ 0 ∧ d.length < 256))
+theorem bytes_pos (o : Opt) : 0 < o.bytes.length := by
+  cases o <;> simp [bytes]
+end Opt
+
+/-- the options one after the other -/
+def optsBytes (os : List Opt) : Bytes := (os.map Opt.bytes).flatten
+
+theorem optsBytes_cons (o : Opt) (os : List Opt) : optsBytes (o :: os) = o.bytes ++ optsBytes os := by
+  simp [optsBytes]
+
+theorem optsBytes_len_ge (os : List Opt) : os.length ≤ (optsBytes os).length := by
+  induction os with
+  | nil => simp [optsBytes]
+  | cons o os ih =>
+    rw [optsBytes_cons, List.length_append, List.length_cons]
+    have := o.bytes_pos
+    omega
+
+theorem u8_ofNat_toNat (n : Nat) (h : n < 256) : (UInt8.ofNat n).toNat = n := by
+  rw [UInt8.toNat_ofNat']; omega
+
+/-- `Len()` of an option that is not Pad1: its length byte plus 2 -/
+theorem opt_len_tlv (ty : UInt8) (hty : ty.toNat ≠ 0) (n : Nat) (hn : n < 256) :
+    (Gen.protocol.Option.Len { Type_ := n8 ty.toNat, Length := n8 n }).toNat = n + 2 := by
+  have e1 : n8 ty.toNat = ty := UInt8.ofNat_toNat
+  have hne : ¬ ty = 0 := by
+    intro h0; apply hty; rw [h0]; rfl
+  have e2 : (n8 n).toNat = n := u8_ofNat_toNat n hn
+  simp only [Gen.protocol.Option.Len, e1, if_neg hne, UInt16.toNat_add, UInt64.toNat_toUInt16, UInt8.toNat_toUInt64, e2]
+  have : (2 : UInt16).toNat = 2 := rfl
+  rw [this]; omega
+
+/-- one option, followed by anything, is read back as its value, and the value's `Len()` is its size on the wire -/
+theorem opt_dec (o : Opt) (hok : o.OK) (d : Slice) (hwf : d.WF) (rest : Bytes) (hb : d.bytes = o.bytes ++ rest) :
+    POption.unmarshal POption.zero d = .ok o.val ∧ ∃ l, POption.len o.val = .ok l ∧ l.toNat = o.bytes.length := by
+  cases o with
+  | pad1 =>
+    have hl : d.len = 1 + rest.length := by rw [← Sw.bytes_length d hwf, hb]; simp [Opt.bytes]; omega
+    constructor
+    · unfold POption.unmarshal
+      rw [if_pos ⟨by omega, index_at d 0 0 rest (by rw [hb]; rfl)⟩]
+      rfl
+    · exact ⟨_, rfl, rfl⟩
+  | tlv ty data =>
+    obtain ⟨hty, hdl⟩ := hok
+    have hb' : d.bytes = [ty, UInt8.ofNat data.length] ++ (data ++ rest) := by
+      rw [hb]; simp only [Opt.bytes, List.append_assoc]
+    have hl : d.len = 2 + data.length + rest.length := by rw [← Sw.bytes_length d hwf, hb']; simp; omega
+    have hln : (UInt8.ofNat data.length).toNat = data.length := u8_ofNat_toNat _ hdl
+    obtain ⟨t, e2, _, _, ht⟩ := Sw.sliceR_at d hwf 2 (2 + data.length) (by omega) (by omega)
+    have ht' : t.bytes = data := by
+      rw [ht, hb']
+      show List.take (2 + data.length - 2) (data ++ rest) = _
+      rw [show 2 + data.length - 2 = data.length by omega]; simp
+    constructor
+    · unfold POption.unmarshal
+      rw [if_neg (by
+        intro h
+        have h2 := h.2
+        rw [index_at d 0 ty _ (by rw [hb']; rfl)] at h2
+        injection h2 with h3
+        apply hty; rw [h3]; rfl)]
+      rw [if_neg (by omega)]
+      simp only [Sw.byteAt_at d 0 ty _ (by rw [hb']; rfl),
+        Sw.byteAt_at d 1 (UInt8.ofNat data.length) _ (by rw [hb']; rfl), Res.bind_ok, hln]
+      rw [if_neg (by omega)]
+      simp only [e2, Res.bind_ok, ht', RT.makeCopy_self _ _ rfl, V.u8, hln]
+      rfl
+    · refine ⟨_, rfl, ?_⟩
+      rw [opt_len_tlv ty hty _ hdl]
+      simp [Opt.bytes]
+
+/-- the option loop of the hop-by-hop decoder over ANY list of well-formed options -/
+theorem opts_loop (data : Slice) (hwf : data.WF) (rest : Bytes) (os : List Opt) (h : ∀ o ∈ os, o.OK) (n : Nat)
+    (acc : List V) (fuel limit : Nat) (hfuel : os.length < fuel) (hb : data.bytes.drop n = optsBytes os ++ rest)
+    (hln : limit = n + (optsBytes os).length) :
+    goLoop (σ := PHopByHop.St) fuel (fun s => s.n < limit) (·.n)
+      (fun s => do
+        let d ← data.fromR s.n
+        let o ← POption.unmarshal POption.zero d
+        let ol ← POption.len o
+        pure { n := s.n + ol.toNat, opts := s.opts ++ [o] })
+      { n := n, opts := acc } = .ok { n := limit, opts := acc ++ os.map Opt.val } := by
+  induction os generalizing n acc fuel with
+  | nil =>
+    obtain ⟨f, rfl⟩ : ∃ f, fuel = f + 1 := ⟨fuel - 1, by simp at hfuel; omega⟩
+    simp [optsBytes] at hln
+    rw [Sw.goLoop_stop _ _ _ _ _ (by simp [hln])]
+    simp [hln]
+  | cons o os ih =>
+    obtain ⟨f, rfl⟩ : ∃ f, fuel = f + 1 := ⟨fuel - 1, by simp at hfuel; omega⟩
+    rw [optsBytes_cons] at hb hln
+    rw [List.length_append] at hln
+    have hpos := o.bytes_pos
+    have hnl : n + (o.bytes ++ optsBytes os ++ rest).length = data.len := by
+      have := congrArg List.length hb
+      rw [List.length_drop, Sw.bytes_length data hwf] at this
+      simp at this ⊢
+      omega
+    obtain ⟨d, e1, hdwf, _, hd⟩ := Sw.fromR_at data hwf n (by simp at hnl; omega)
+    rw [hb, List.append_assoc] at hd
+    obtain ⟨hdec, l, hlen, hl⟩ := opt_dec o (h o (by simp)) d hdwf _ hd
+    rw [Sw.goLoop_step _ _ _ _ _ ⟨n + o.bytes.length, acc ++ [o.val]⟩
+        (by simp; omega)
+        (by simp only [e1, Res.bind_ok, hdec, hlen, hl]; rfl)
+        (by show n < n + o.bytes.length; omega)]
+    rw [ih (fun q hq => h q (by simp [hq])) (n + o.bytes.length) (acc ++ [o.val]) f (by simp at hfuel; omega)
+      (by
+        rw [← List.drop_drop, hb, List.append_assoc]
+        simp)
+      (by omega)]
+    simp
+
+/-- `Len()` of a hop-by-hop header: `8 * (HEL + 1)` -/
+theorem hbh_len (nh hel : UInt8) :
+    (Gen.protocol.HopByHopHeader.Len { NextHeader := nh, HEL := hel }).toNat = 8 * (hel.toNat + 1) := by
+  have := hel.toNat_lt
+  simp only [Gen.protocol.HopByHopHeader.Len, UInt16.toNat_mul, UInt16.toNat_add, UInt64.toNat_toUInt16, UInt8.toNat_toUInt64]
+  have h1 : (1 : UInt16).toNat = 1 := rfl
+  have h8 : (8 : UInt16).toNat = 8 := rfl
+  rw [h1, h8]; omega
+
+/-- the decoded hop-by-hop header -/
+def hbhOptsV (nh hel : UInt8) (os : List Opt) : V :=
+  .obj "p.HopByHopHeader" [.num nh.toNat, .num hel.toNat, .list (os.map Opt.val)]
+
+/-- hop-by-hop options header: next header(1), header extension length(1), then ANY list of well-formed options — Pad1
+    included — that fills the `8 * (hdr ext len + 1)` bytes: every option comes back, in order -/
+theorem hbh_dec_opts (d : Slice) (hwf : d.WF) (nh hel : UInt8) (os : List Opt) (hok : ∀ o ∈ os, o.OK)
+    (hlen : 2 + (optsBytes os).length = 8 * (hel.toNat + 1)) (more : Bytes)
+    (hb : d.bytes = [nh, hel] ++ (optsBytes os ++ more)) :
+    PHopByHop.unmarshal PHopByHop.zero d = .ok (hbhOptsV nh hel os) := by
+  have hl : d.len = 8 * (hel.toNat + 1) + more.length := by rw [← Sw.bytes_length d hwf, hb]; simp; omega
+  have hge := optsBytes_len_ge os
+  unfold PHopByHop.unmarshal
+  rw [if_neg (by omega)]
+  simp only [Sw.byteAt_at d 0 nh _ (by rw [hb]; rfl), Sw.byteAt_at d 1 hel _ (by rw [hb]; rfl), Res.bind_ok]
+  rw [if_neg (by omega)]
+  simp only [PHopByHop.zero, hbh_len]
+  rw [opts_loop d hwf more os hok 2 [] _ _ (by omega) (by rw [hb]; rfl) (by omega)]
+  rfl
+
 /-- the decoded hop-by-hop header holding one option with four bytes of data -/
 def hbhV (nh oty : UInt8) (od : Bytes) : V :=
   .obj "p.HopByHopHeader" [.num nh.toNat, .num 0, .list [.obj "p.Option" [.num oty.toNat, .num 4, .bytes od]]]
 
-/-- hop-by-hop options header of 8 bytes: next header(1), header extension length 0, one option: type(1), length 4,
-    4 bytes of option data (PadN: type 1, zeros) -/
-theorem hbh_dec (d : Slice) (hwf : d.WF) (nh oty : UInt8) (od more : Bytes) (hod : od.length = 4)
+/-- hop-by-hop options header of 8 bytes: next header(1), header extension length 0, one option: type(1) — not 0, which
+    is Pad1 —, length 4, 4 bytes of option data (PadN: type 1, zeros) -/
+theorem hbh_dec (d : Slice) (hwf : d.WF) (nh oty : UInt8) (hoty : oty.toNat ≠ 0) (od more : Bytes) (hod : od.length = 4)
     (hb : d.bytes = [nh, 0, oty, 4] ++ (od ++ more)) :
     PHopByHop.unmarshal PHopByHop.zero d = .ok (hbhV nh oty od) := by
   obtain ⟨o0, o1, o2, o3, rfl⟩ := Sw.len4 od hod
-  have hl : d.len = 8 + more.length := by rw [← Sw.bytes_length d hwf, hb]; simp; omega
-  obtain ⟨d2, e1, hd2wf, hd2l, hd2⟩ := Sw.fromR_at d hwf 2 (by omega)
-  rw [hb] at hd2
-  obtain ⟨t, e2, _, _, ht⟩ := Sw.sliceR_at d2 hd2wf 2 6 (by omega) (by omega)
-  rw [hd2] at ht
-  have hopt : POption.unmarshal POption.zero d2 = .ok (.obj "p.Option" [.num oty.toNat, .num 4, .bytes [o0, o1, o2, o3]]) := by
-    unfold POption.unmarshal
-    rw [if_neg (by omega)]
-    simp only [Sw.byteAt_at d2 0 oty _ (by rw [hd2]; rfl), Sw.byteAt_at d2 1 4 _ (by rw [hd2]; rfl), Res.bind_ok]
-    rw [if_neg (by rw [hd2l, hl]; show ¬ (8 + more.length - 2 - 2 < 4); omega)]
-    show (d2.sliceR 2 6 >>= fun s => _) = _
-    simp only [e2, Res.bind_ok, ht]
-    rfl
-  unfold PHopByHop.unmarshal
-  rw [if_neg (by omega)]
-  simp only [Sw.byteAt_at d 0 nh _ (by rw [hb]; rfl), Sw.byteAt_at d 1 0 _ (by rw [hb]; rfl), Res.bind_ok]
-  rw [if_neg (by rw [hl]; show ¬ (8 + more.length < 8 * (0 + 1)); omega)]
-  simp only [PHopByHop.zero]
-  rw [Sw.goLoop_step _ _ _ _ _ ⟨8, [.obj "p.Option" [.num oty.toNat, .num 4, .bytes [o0, o1, o2, o3]]]⟩ (by rfl)
-      (by simp only [e1, Res.bind_ok, hopt]; rfl) (by show 2 < 8; omega),
-    Sw.goLoop_stop _ _ _ _ _ (by rfl)]
-  rfl
+  exact hbh_dec_opts d hwf nh 0 [.tlv oty [o0, o1, o2, o3]]
+    (by intro o ho; simp only [List.mem_cons, List.not_mem_nil, or_false] at ho; subst ho; exact ⟨hoty, by simp⟩)
+    rfl more (by rw [hb]; rfl)
 
 /-- the decoded fragment header: offset = upper 13 bits of the 16-bit word, M = its lowest bit -/
 def fragV (nh rsv : UInt8) (w : UInt16) (ident : UInt32) : V :=
@@ -128,28 +288,40 @@ theorem xloop_end (r : Slice) (f : Nat) (s : PIPv6.XSt) (h0 : s.nxt.toNat ≠ 0)
   rw [if_neg (show ¬ s.nxt.toNat = Gen.protocol.Type_HBH from h0), if_neg (show ¬ s.nxt.toNat = Gen.protocol.Type_Routing from h1),
     if_neg (show ¬ s.nxt.toNat = Gen.protocol.Type_Fragment from h2)]
 
-/-- one pass over a hop-by-hop header -/
-theorem xloop_hbh (r : Slice) (hwf : r.WF) (f : Nat) (s : PIPv6.XSt) (hn : s.nxt.toNat = 0) (nh oty : UInt8)
-    (od more : Bytes) (hod : od.length = 4) (hb : r.bytes.drop s.n = [nh, 0, oty, 4] ++ (od ++ more)) :
-    PIPv6.xloop r (f + 1) s = PIPv6.xloop r f { s with n := s.n + 8, nxt := nh, hbh := hbhV nh oty od } := by
-  have hl : r.len = s.n + ([nh, 0, oty, 4] ++ (od ++ more)).length := by
+/-- one pass over a hop-by-hop header with any list of well-formed options -/
+theorem xloop_hbh_opts (r : Slice) (hwf : r.WF) (f : Nat) (s : PIPv6.XSt) (hn : s.nxt.toNat = 0) (nh hel : UInt8)
+    (os : List Opt) (hok : ∀ o ∈ os, o.OK) (hlen : 2 + (optsBytes os).length = 8 * (hel.toNat + 1)) (more : Bytes)
+    (hb : r.bytes.drop s.n = [nh, hel] ++ (optsBytes os ++ more)) :
+    PIPv6.xloop r (f + 1) s
+      = PIPv6.xloop r f { s with n := s.n + 8 * (hel.toNat + 1), nxt := nh, hbh := hbhOptsV nh hel os } := by
+  have hl : r.len = s.n + ([nh, hel] ++ (optsBytes os ++ more)).length := by
     rcases drop_len r hwf s.n _ hb with h | ⟨h, _⟩
     · exact h
     · cases h
   obtain ⟨d, e1, hdwf, _, hd⟩ := Sw.fromR_at r hwf s.n (by omega)
   rw [hb] at hd
-  have hstep : PIPv6.xstep r s = .ok (some { s with n := s.n + 8, nxt := nh, hbh := hbhV nh oty od }) := by
+  have hstep : PIPv6.xstep r s
+      = .ok (some { s with n := s.n + 8 * (hel.toNat + 1), nxt := nh, hbh := hbhOptsV nh hel os }) := by
     unfold PIPv6.xstep
     rw [if_pos (show s.nxt.toNat = Gen.protocol.Type_HBH from hn)]
-    simp only [e1, Res.bind_ok, hbh_dec d hdwf nh oty od more hod hd]
-    unfold hbhV PHopByHop.nextHeader PHopByHop.len
+    simp only [e1, Res.bind_ok, hbh_dec_opts d hdwf nh hel os hok hlen more hd]
+    unfold hbhOptsV PHopByHop.nextHeader PHopByHop.len
     simp only [Res.bind_ok, Res.pure_eq]
-    have : n8 nh.toNat = nh := UInt8.ofNat_toNat
-    rw [this]
-    rfl
+    have e2 : n8 nh.toNat = nh := UInt8.ofNat_toNat
+    have e3 : n8 hel.toNat = hel := UInt8.ofNat_toNat
+    rw [e2, e3, hbh_len]
   conv => lhs; unfold PIPv6.xloop
   simp only [hstep]
   rw [if_neg (by intro h; have := h.1; simp at this)]
+
+/-- one pass over a hop-by-hop header with one 4-byte option -/
+theorem xloop_hbh (r : Slice) (hwf : r.WF) (f : Nat) (s : PIPv6.XSt) (hn : s.nxt.toNat = 0) (nh oty : UInt8)
+    (hoty : oty.toNat ≠ 0) (od more : Bytes) (hod : od.length = 4) (hb : r.bytes.drop s.n = [nh, 0, oty, 4] ++ (od ++ more)) :
+    PIPv6.xloop r (f + 1) s = PIPv6.xloop r f { s with n := s.n + 8, nxt := nh, hbh := hbhV nh oty od } := by
+  obtain ⟨o0, o1, o2, o3, rfl⟩ := Sw.len4 od hod
+  exact xloop_hbh_opts r hwf f s hn nh 0 [.tlv oty [o0, o1, o2, o3]]
+    (by intro o ho; simp only [List.mem_cons, List.not_mem_nil, or_false] at ho; subst ho; exact ⟨hoty, by simp⟩)
+    rfl more (by rw [hb]; rfl)
 
 /-- one pass over a fragment header -/
 theorem xloop_frag (r : Slice) (hwf : r.WF) (f : Nat) (s : PIPv6.XSt) (hn : s.nxt.toNat = 44) (nh rsv : UInt8)
@@ -192,10 +364,19 @@ theorem chain_none (nh : UInt8) (h : Upper nh) : Chain nh [] nh .nil .nil .nil :
   intro r _ pb _
   exact xloop_end r _ _ h.1 h.2.1 h.2.2
 
-theorem chain_hbh (nh oty : UInt8) (od : Bytes) (hod : od.length = 4) (h : Upper nh) :
+/-- a hop-by-hop header with ANY list of well-formed options (Pad1 included) in front of an upper-layer protocol -/
+theorem chain_hbh_opts (nh hel : UInt8) (os : List Opt) (hok : ∀ o ∈ os, o.OK)
+    (hlen : 2 + (optsBytes os).length = 8 * (hel.toNat + 1)) (h : Upper nh) :
+    Chain 0 ([nh, hel] ++ optsBytes os) nh (hbhOptsV nh hel os) .nil .nil := by
+  intro r hwf pb hb
+  rw [xloop_hbh_opts r hwf _ _ rfl nh hel os hok hlen pb (by rw [hb]; simp), xloop_end r _ _ h.1 h.2.1 h.2.2]
+  simp
+  omega
+
+theorem chain_hbh (nh oty : UInt8) (hoty : oty.toNat ≠ 0) (od : Bytes) (hod : od.length = 4) (h : Upper nh) :
     Chain 0 ([nh, 0, oty, 4] ++ od) nh (hbhV nh oty od) .nil .nil := by
   intro r hwf pb hb
-  rw [xloop_hbh r hwf _ _ rfl nh oty od pb hod (by rw [hb]; simp), xloop_end r _ _ h.1 h.2.1 h.2.2]
+  rw [xloop_hbh r hwf _ _ rfl nh oty hoty od pb hod (by rw [hb]; simp), xloop_end r _ _ h.1 h.2.1 h.2.2]
   simp [hod]
 
 theorem chain_frag (nh rsv : UInt8) (w : UInt16) (ident : UInt32) (h : Upper nh) :
@@ -204,19 +385,53 @@ theorem chain_frag (nh rsv : UInt8) (w : UInt16) (ident : UInt32) (h : Upper nh)
   rw [xloop_frag r hwf _ _ rfl nh rsv w ident pb (by rw [hb]; simp), xloop_end r _ _ h.1 h.2.1 h.2.2]
   rfl
 
-theorem chain_hbh_frag (oty : UInt8) (od : Bytes) (hod : od.length = 4) (nh rsv : UInt8) (w : UInt16) (ident : UInt32)
-    (h : Upper nh) :
+/-- a hop-by-hop header with ANY list of well-formed options followed by a fragment header -/
+theorem chain_hbh_opts_frag (hel : UInt8) (os : List Opt) (hok : ∀ o ∈ os, o.OK)
+    (hlen : 2 + (optsBytes os).length = 8 * (hel.toNat + 1)) (nh rsv : UInt8) (w : UInt16) (ident : UInt32) (h : Upper nh) :
+    Chain 0 (([44, hel] ++ optsBytes os) ++ ([nh, rsv] ++ (be16 w ++ be32 ident))) nh (hbhOptsV 44 hel os) .nil
+      (fragV nh rsv w ident) := by
+  intro r hwf pb hb
+  rw [xloop_hbh_opts r hwf _ _ rfl 44 hel os hok hlen ([nh, rsv] ++ (be16 w ++ (be32 ident ++ pb))) (by rw [hb]; simp),
+    xloop_frag r hwf _ _ rfl nh rsv w ident pb
+      (by
+        show r.bytes.drop (40 + 8 * (hel.toNat + 1)) = _
+        rw [← List.drop_drop, hb, ← hlen, Nat.add_comm 2]; simp),
+    xloop_end r _ _ h.1 h.2.1 h.2.2]
+  simp
+  omega
+
+theorem chain_hbh_frag (oty : UInt8) (hoty : oty.toNat ≠ 0) (od : Bytes) (hod : od.length = 4) (nh rsv : UInt8) (w : UInt16)
+    (ident : UInt32) (h : Upper nh) :
     Chain 0 (([44, 0, oty, 4] ++ od) ++ ([nh, rsv] ++ (be16 w ++ be32 ident))) nh (hbhV 44 oty od) .nil
       (fragV nh rsv w ident) := by
   intro r hwf pb hb
   obtain ⟨o0, o1, o2, o3, rfl⟩ := Sw.len4 od hod
-  rw [xloop_hbh r hwf _ _ rfl 44 oty [o0, o1, o2, o3] ([nh, rsv] ++ (be16 w ++ (be32 ident ++ pb))) rfl (by rw [hb]; simp),
+  rw [xloop_hbh r hwf _ _ rfl 44 oty hoty [o0, o1, o2, o3] ([nh, rsv] ++ (be16 w ++ (be32 ident ++ pb))) rfl (by rw [hb]; simp),
     xloop_frag r hwf _ _ rfl nh rsv w ident pb
       (by
         show r.bytes.drop (40 + 8) = _
         rw [← List.drop_drop, hb]; simp),
     xloop_end r _ _ h.1 h.2.1 h.2.2]
   rfl
+
+/-- the two hop-by-hop headers of 8 bytes the specification uses as examples of padding: Pad1 followed by PadN with 3
+    data bytes (00 | 01 03 00 00 00), and a router-alert option (type 5, length 2, value) followed by two Pad1 -/
+theorem chain_hbh_pad1_padN (nh : UInt8) (h : Upper nh) :
+    Chain 0 [nh, 0, 0, 1, 3, 0, 0, 0] nh (hbhOptsV nh 0 [.pad1, .tlv 1 [0, 0, 0]]) .nil .nil :=
+  chain_hbh_opts nh 0 [.pad1, .tlv 1 [0, 0, 0]]
+    (by intro o ho; simp only [List.mem_cons, List.not_mem_nil, or_false] at ho; rcases ho with rfl | rfl
+        · trivial
+        · exact ⟨by decide, by decide⟩)
+    rfl h
+
+theorem chain_hbh_routerAlert_pad1 (nh : UInt8) (value : UInt16) (h : Upper nh) :
+    Chain 0 ([nh, 0, 5, 2] ++ (be16 value ++ [0, 0])) nh (hbhOptsV nh 0 [.tlv 5 (be16 value), .pad1, .pad1]) .nil .nil :=
+  chain_hbh_opts nh 0 [.tlv 5 (be16 value), .pad1, .pad1]
+    (by intro o ho; simp only [List.mem_cons, List.not_mem_nil, or_false] at ho; rcases ho with rfl | rfl | rfl
+        · exact ⟨by decide, by simp⟩
+        · trivial
+        · trivial)
+    rfl h
 
 /-! ### IPv6 -/
 
